@@ -37,6 +37,8 @@ type HReq struct {
 	P      uint32 `json:"p,omitempty"`
 	R      uint32 `json:"r,omitempty"`
 	Seq    int    `json:"seq,omitempty"`
+	Level  int32  `json:"level,omitempty"` // BatchItem.level, a public field no client ever sets
+	Burst  int    `json:"burst,omitempty"` // the same request issued this many times at once, through different nodes
 }
 
 type C12Case struct {
@@ -55,7 +57,11 @@ func genC12(r *simrt.Rand, tier string) json.RawMessage {
 	n := r.Range(1, 6)
 	for i := 0; i < n; i++ {
 		h := HReq{Rpc: rpcs[r.Intn(len(rpcs))], Node: r.Range(1, c.W3.Nodes), Seq: i}
-		h.DsId = pick("good", "good", "good", "unknown", "empty", "short", "long")
+		h.DsId = pick("good", "good", "good", "victim", "victim", "unknown", "empty", "short", "long")
+		h.Level = []int32{0, 0, -1, -2, math.MinInt32, 7}[r.Intn(6)]
+		if r.Bool(0.25) {
+			h.Burst = r.Range(2, 8)
+		}
 		h.ItemId = pick("good", "good", "empty", "short", "long")
 		h.Vec = pick("good", "good", "empty", "short", "long", "nan", "inf", "collinear", "collinear")
 		h.Meta = pick("none", "small", "longkey", "longval", "many")
@@ -146,6 +152,9 @@ func (r *W3Run) hostile(h HReq, good *dsInfo) (panicked string, err error) {
 	}
 	n := s.nodes[h.Node-1]
 	dsid := mkId(h.DsId, good.id.Bytes())
+	if v := r.ds[1]; h.DsId == "victim" && v != nil && v.ackedCreate {
+		dsid = v.id.Bytes() // a second healthy dataset that hostile requests may delete
+	}
 	item := mkId(h.ItemId, idOf(8000+h.Seq).Bytes())
 	var partId []byte
 	if len(good.meta.GetPartitions()) > 0 {
@@ -173,12 +182,11 @@ func (r *W3Run) hostile(h HReq, good *dsInfo) (panicked string, err error) {
 			if i%5 == 1 {
 				kind = h.Vec
 			}
-			out = append(out, &pb.BatchItem{Id: id, Value: mkVec(kind, good.dim, i), Metadata: mkMeta(map[bool]string{true: h.Meta, false: "none"}[i == 0])})
+			out = append(out, &pb.BatchItem{Id: id, Value: mkVec(kind, good.dim, i), Metadata: mkMeta(map[bool]string{true: h.Meta, false: "none"}[i == 0]), Level: h.Level})
 		}
 		return out
 	}
-	op := s.client(n, fmt.Sprintf("hostile %s ds=%s id=%s vec=%s meta=%s k=%d items=%d bad=%d part=%s dim=%d space=%d P=%d R=%d", h.Rpc, h.DsId, h.ItemId, h.Vec, h.Meta, h.K, h.Items, h.BadIds, h.Part, h.Dim, h.Space, h.P, h.R), 20*time.Second,
-		func(ctx context.Context, n *simNode) (res interface{}, err error) {
+	call := func(ctx context.Context, n *simNode) (res interface{}, err error) {
 			defer func() {
 				if rec := recover(); rec != nil {
 					panicked = fmt.Sprintf("%v | %s | %s", rec, topFrame(debug.Stack()), trimStack(debug.Stack()))
@@ -227,8 +235,24 @@ func (r *W3Run) hostile(h HReq, good *dsInfo) (panicked string, err error) {
 				return nil, n.svcDM.List(&pb.ListDatasetsRequest{WithSize: h.Dup}, srvStreamDatasets{fs})
 			}
 			return nil, nil
-		})
-	s.runUntil(func() bool { return op.done }, 25*time.Second)
+		}
+	label := fmt.Sprintf("hostile %s ds=%s id=%s vec=%s meta=%s k=%d items=%d bad=%d part=%s dim=%d space=%d P=%d R=%d level=%d burst=%d", h.Rpc, h.DsId, h.ItemId, h.Vec, h.Meta, h.K, h.Items, h.BadIds, h.Part, h.Dim, h.Space, h.P, h.R, h.Level, h.Burst)
+	op := s.client(n, label, 20*time.Second, call)
+	extra := []*clientOp{}
+	for j := 1; j < h.Burst; j++ {
+		m := s.nodes[(h.Node-1+j)%len(s.nodes)]
+		if m.alive {
+			extra = append(extra, s.client(m, label, 20*time.Second, call))
+		}
+	}
+	s.runUntil(func() bool {
+		for _, e := range extra {
+			if !e.done {
+				return false
+			}
+		}
+		return op.done
+	}, 25*time.Second)
 	if !op.done {
 		return "", fmt.Errorf("request never returned")
 	}
@@ -349,6 +373,8 @@ func execC12(raw json.RawMessage, wantLog bool) (out Outcome) {
 			})
 			s.runUntil(func() bool { return bo.done }, 12*time.Second)
 		}
+		// a second healthy dataset, which hostile requests are allowed to delete
+		r.createDataset(1, s.nodes[0], 2, 1, 3, 0, true)
 		for i, h := range c.Reqs {
 			panicked, err := r.hostile(h, good)
 			out.Stat("hostile_requests", 1)
